@@ -414,7 +414,7 @@ static void gen_belsGenM0(fc_ctx* c)
 	c->a[0] = fc_out(c, c->n[0]);
 	c->variant = (int)c->n[0];
 }
-static err_t call_belsGenM0(fc_ctx* c) { return belsGenM0(c->a[0], c->n[0], fc_tape, c); }
+static err_t call_belsGenM0(fc_ctx* c) { return belsGenM0(c->a[0], c->n[0], FC_RNG(c), c); }
 static int bad_belsGenM0(fc_ctx* c, int j, err_t* exp)
 {
 	if (j < 9)
@@ -442,7 +442,7 @@ static void gen_belsGenMi(fc_ctx* c)
 	c->a[0] = fc_out(c, c->n[0]);
 	c->variant = (int)c->n[0];
 }
-static err_t call_belsGenMi(fc_ctx* c) { return belsGenMi(c->a[0], c->n[0], c->a[1], fc_tape, c); }
+static err_t call_belsGenMi(fc_ctx* c) { return belsGenMi(c->a[0], c->n[0], c->a[1], FC_RNG(c), c); }
 static int bad_belsGenMi(fc_ctx* c, int j, err_t* exp)
 {
 	if (j < 9)
@@ -520,8 +520,8 @@ static void gen_share_common(fc_ctx* c, int std)
 }
 static void gen_belsShare(fc_ctx* c) { gen_share_common(c, 0); }
 static void gen_belsShare2(fc_ctx* c) { gen_share_common(c, 1); }
-static err_t call_belsShare(fc_ctx* c) { return belsShare(c->a[0], c->n[1], c->n[2], c->n[0], c->a[1], c->a[2], c->a[3], fc_tape, c); }
-static err_t call_belsShare2(fc_ctx* c) { return belsShare2(c->a[0], c->n[1], c->n[2], c->n[0], c->a[1], fc_tape, c); }
+static err_t call_belsShare(fc_ctx* c) { return belsShare(c->a[0], c->n[1], c->n[2], c->n[0], c->a[1], c->a[2], c->a[3], FC_RNG(c), c); }
+static err_t call_belsShare2(fc_ctx* c) { return belsShare2(c->a[0], c->n[1], c->n[2], c->n[0], c->a[1], FC_RNG(c), c); }
 static err_t call_belsShare3(fc_ctx* c) { return belsShare3(c->a[0], c->n[1], c->n[2], c->n[0], c->a[1]); }
 static int bad_share(fc_ctx* c, int j, err_t* exp, int std)
 {
@@ -643,11 +643,11 @@ const fc_desc fc_misc[] = {
 	D("botpOCRAVerify", gen_OCRAVerify, call_OCRAVerify, bad_OCRAVerify, FC_SECRET),
 	D("belsStdM", gen_belsStdM, call_belsStdM, bad_belsStdM, 0),
 	D("belsValM", gen_belsValM, call_belsValM, bad_belsValM, 0),
-	D("belsGenM0", gen_belsGenM0, call_belsGenM0, bad_belsGenM0, FC_SLOW),
-	D("belsGenMi", gen_belsGenMi, call_belsGenMi, bad_belsGenMi, FC_SLOW),
+	D("belsGenM0", gen_belsGenM0, call_belsGenM0, bad_belsGenM0, FC_SLOW | FC_RNGARG),
+	D("belsGenMi", gen_belsGenMi, call_belsGenMi, bad_belsGenMi, FC_SLOW | FC_RNGARG),
 	D("belsGenMid", gen_belsGenMid, call_belsGenMid, bad_belsGenMid, FC_SLOW),
-	D("belsShare", gen_belsShare, call_belsShare, bad_belsShare, FC_SECRET),
-	D("belsShare2", gen_belsShare2, call_belsShare2, bad_belsShare2, FC_SECRET),
+	D("belsShare", gen_belsShare, call_belsShare, bad_belsShare, FC_SECRET | FC_RNGARG),
+	D("belsShare2", gen_belsShare2, call_belsShare2, bad_belsShare2, FC_SECRET | FC_RNGARG),
 	D("belsShare3", gen_belsShare2, call_belsShare3, bad_belsShare2, FC_SECRET),
 	D("belsRecover", gen_belsRecover, call_belsRecover, 0, FC_SECRET),
 	D("belsRecover2", gen_belsRecover2, call_belsRecover2, bad_belsRecover2, FC_SECRET),
